@@ -21,9 +21,9 @@ META = {
         "R-GEN: clean, left-pad with 0, combined-width split only when the country has a branch field, filler positions 0, national digits from R-NAT",
         "DONT_CARE: which of several too-long components is named; which library error class reports wrong-class characters; what from_components returns for wrong-class characters",
     ],
-    "min_distinct": {"quick": 8000, "thorough": 200000},
+    "min_distinct": {"quick": 15000, "thorough": 600000},
 }
-SIZES = {"quick": 90, "thorough": 2600}
+SIZES = {"quick": 250, "thorough": 10000}
 JUNK = ["-", ".", "/", "_", "!", "é", "ß", "٣", "３", "Ａ", "\x00", "ı", "​"]
 
 
